@@ -136,10 +136,11 @@ def _import_state_from_dict(state_d: Mapping[str, Any]) -> StateMixin:
         if substates and parallel_substates:
             raise StatechartError(
                 '{} cannot declare both a "states" and a "parallel states" property'.format(name))
-        elif substates:
+        elif substates is not None and not parallel_substates:
+            # (an empty list too: a compound state without children is exported that way)
             state = CompoundState(name, initial=state_d.get('initial', None),
                                   on_entry=on_entry, on_exit=on_exit)
-        elif parallel_substates:
+        elif parallel_substates is not None:
             state = OrthogonalState(name, on_entry=on_entry, on_exit=on_exit)
         else:
             state = BasicState(name, on_entry=on_entry, on_exit=on_exit)
